@@ -256,6 +256,26 @@ class Model(object):
                 r = self.resolve_global(m, q)
                 if r and r[0] == 'func':
                     f = r[1]
+        if f is None and '.' in q:
+            # `name = lambda args: expr` inside the parent function is the nested function `def name(args): return expr`
+            pq, _, name = q.rpartition('.')
+            pf = m.funcs.get(pq)
+            if pf is not None:
+                for st in walk_no_nested(pf.node, include_lambda=False):
+                    if isinstance(st, ast.Assign) and len(st.targets) == 1 and isinstance(st.targets[0], ast.Name) and st.targets[0].id == name.split('#')[0] \
+                            and isinstance(st.value, ast.Lambda):
+                        node = ast.FunctionDef(name=name.split('#')[0], args=st.value.args, body=[ast.copy_location(ast.Return(value=st.value.body), st.value)],
+                                               decorator_list=[], returns=None, type_comment=None)
+                        ast.copy_location(node, st)
+                        node.end_lineno = getattr(st, 'end_lineno', st.lineno)
+                        node._parent = getattr(st, '_parent', None)
+                        for n in ast.walk(node):
+                            for c in ast.iter_child_nodes(n):
+                                if not hasattr(c, '_parent') or c is node.body[0]:
+                                    c._parent = n
+                        f = FuncInfo(m, q, node, cls=None, parent=pf)
+                        m.funcs[q] = f
+                        break
         if f is None:
             raise AnalysisError('anchor vanished: function %s' % anchor)
         self.consulted[f.anchor] = f
